@@ -289,7 +289,7 @@ func runWorldB(rc *RunCtx, prop string) *RunResult {
 
 				// a transaction that cannot be stored contributes nothing: in particular the unpublished copies of
 				// its operations must still be there when the store write fails (first delivery only)
-				if w.useUnpub && w.curObs.Honest && w.curObs.Puts == 0 {
+				if w.useUnpub && w.curObs.Honest && w.curObs.Puts == 0 && !w.replayed(w.curObs) {
 					for _, op := range w.curObs.Included {
 						// (a retried request is byte-identical to its original: anchoring either of them legitimately
 						// removes an unpublished copy of "that request" - the oracle speaks about unique requests only)
@@ -1010,6 +1010,18 @@ func (w *bWorld) inQueue(key string) bool {
 
 	for _, it := range w.q.InFlight {
 		if it.Key == key {
+			return true
+		}
+	}
+
+	return false
+}
+
+// replayed: has somebody anchored a copy of this transaction's anchor string (its operations then also
+// arrive - and are cleaned up - through that copy)?
+func (w *bWorld) replayed(t *bTxn) bool {
+	for _, o := range w.txns {
+		if o.ReplayOf == t.Idx {
 			return true
 		}
 	}
